@@ -637,6 +637,96 @@ def gen_track(repo):
     out.append("end Mingus.Gen.Track")
     return "\n".join(out) + "\n"
 
+# ---------------------------------------------------------------- class attributes (C15)
+MUTATING = {"append", "extend", "insert", "pop", "remove", "sort", "reverse", "clear", "update", "setdefault", "add"}
+
+def class_infos(repo):
+    files = ["mingus/containers/note.py", "mingus/containers/note_container.py", "mingus/containers/bar.py",
+             "mingus/containers/track.py", "mingus/containers/composition.py", "mingus/containers/suite.py",
+             "mingus/containers/instrument.py", "mingus/midi/midi_file_out.py", "mingus/midi/midi_track.py",
+             "mingus/midi/sequencer.py"]
+    out = []
+    for rel in files:
+        t = parse(repo, rel)
+        for c in t.body:
+            if not isinstance(c, ast.ClassDef):
+                continue
+            fields = {}
+            for n in c.body:
+                if isinstance(n, ast.Assign) and len(n.targets) == 1 and isinstance(n.targets[0], ast.Name):
+                    v = n.value
+                    mutable = isinstance(v, (ast.List, ast.Dict, ast.Set)) or (is_call(v) and getattr(v.func, "id", None) in ("list", "dict", "set"))
+                    fields[n.targets[0].id] = {"mutable": mutable, "rebound": False, "inplace": False}
+            methods = {m.name: m for m in c.body if isinstance(m, ast.FunctionDef)}
+            def assigned_in(m, depth=0):
+                names = set()
+                for n in ast.walk(m):
+                    if isinstance(n, (ast.Assign, ast.AugAssign)):
+                        tgts = n.targets if isinstance(n, ast.Assign) else [n.target]
+                        for tg in tgts:
+                            if isinstance(tg, ast.Attribute) and getattr(tg.value, "id", None) == "self" and isinstance(n, ast.Assign):
+                                names.add(tg.attr)
+                    if depth < 2 and is_call(n) and isinstance(n.func, ast.Attribute) and getattr(n.func.value, "id", None) == "self" \
+                       and n.func.attr in methods and n.func.attr != m.name:
+                        names |= assigned_in(methods[n.func.attr], depth + 1)
+                return names
+            if "__init__" in methods:
+                for nm in assigned_in(methods["__init__"]):
+                    if nm in fields:
+                        fields[nm]["rebound"] = True
+            for m in methods.values():
+                for n in ast.walk(m):
+                    if is_call(n) and isinstance(n.func, ast.Attribute) and n.func.attr in MUTATING:
+                        tgt = n.func.value
+                        if isinstance(tgt, ast.Attribute) and getattr(tgt.value, "id", None) == "self" and tgt.attr in fields:
+                            fields[tgt.attr]["inplace"] = True
+                    if isinstance(n, (ast.Assign, ast.AugAssign)):
+                        tgts = n.targets if isinstance(n, ast.Assign) else [n.target]
+                        for tg in tgts:
+                            if isinstance(tg, ast.Subscript) and isinstance(tg.value, ast.Attribute) and \
+                               getattr(tg.value.value, "id", None) == "self" and tg.value.attr in fields:
+                                fields[tg.value.attr]["inplace"] = True
+                            if isinstance(n, ast.AugAssign) and isinstance(tg, ast.Attribute) and getattr(tg.value, "id", None) == "self" \
+                               and tg.attr in fields and fields[tg.attr]["mutable"]:
+                                fields[tg.attr]["inplace"] = True
+            out.append((c.name, [(k, v["mutable"], v["rebound"], v["inplace"]) for k, v in fields.items() if v["mutable"]]))
+    return out
+
+def gen_classes(repo):
+    infos = class_infos(repo)
+    b = lambda x: "true" if x else "false"
+    out = ["import Mingus.Model.Alias", "namespace Mingus.Gen.Classes", "open Mingus.Alias"]
+    out.append("def classes : List ClassInfo := " + llist(
+        "⟨%s, %s⟩" % (lstr(n), llist("⟨%s, %s, %s, %s⟩" % (lstr(f), b(m), b(r), b(i)) for f, m, r, i in fs)) for n, fs in infos))
+    # module-level memo tables and how their functions return (for the memo machine's `fresh` flag)
+    def returns(rel, fname):
+        t = parse(repo, rel)
+        return [ast.unparse(n.value) for n in ast.walk(func(t, fname)) if isinstance(n, ast.Return) and n.value is not None]
+    out.append("def memoReturns : List (List Char × List (List Char)) := " + llist(
+        "(%s, %s)" % (lstr(nm), llist(lstr(x) for x in returns(rel, nm)))
+        for rel, nm in (("mingus/core/keys.py", "get_notes"), ("mingus/core/chords.py", "triads"), ("mingus/core/chords.py", "sevenths"))))
+    t = parse(repo, "mingus/extra/fft.py")
+    f = func(t, "_find_log_index")
+    shortcut = [ast.unparse(n.test) for n in ast.walk(f) if isinstance(n, ast.If) and "lastn" in ast.unparse(n.test)]
+    out.append("def fftShortcutTests : List (List Char) := " + llist(lstr(x) for x in shortcut))
+    # mutable default arguments anywhere in the library (a shared object across calls)
+    md = []
+    import glob
+    for path in sorted(glob.glob(os.path.join(repo, "mingus", "*", "*.py"))):
+        rel = os.path.relpath(path, repo)
+        try:
+            tr = parse(repo, rel)
+        except SyntaxError:
+            continue
+        for n in ast.walk(tr):
+            if isinstance(n, (ast.FunctionDef, ast.Lambda)):
+                for d in list(n.args.defaults) + [x for x in n.args.kw_defaults if x is not None]:
+                    if isinstance(d, (ast.List, ast.Dict, ast.Set)) or (is_call(d) and getattr(d.func, "id", None) in ("list", "dict", "set")):
+                        md.append("%s:%s" % (rel, getattr(n, "name", "<lambda>")))
+    out.append("def mutableDefaults : List (List Char) := " + llist(lstr(x) for x in md))
+    out.append("end Mingus.Gen.Classes")
+    return "\n".join(out) + "\n"
+
 GENERATORS = {
     "Notes": gen_notes,
     "Keys": gen_keys,
@@ -649,6 +739,7 @@ GENERATORS = {
     "NoteContainer": gen_notecontainer,
     "Bar": gen_bar,
     "Track": gen_track,
+    "Classes": gen_classes,
 }
 
 def main():
